@@ -188,6 +188,7 @@ theorem read_chunks_step_eq_model (f : Bw64.Bytes) (ds : Option Bw64.Ds64) (fuel
       match Bw64.readChunkHeader f ds pos with
       | .eof => .ok (t, w)
       | .badId => .error .badId
+      | .placeholder => .error .dataPlaceholder
       | .hdr id sz =>
         match Gen.read_chunks_step (pos + 8) sz f.length (decide (id = Bw64.idData)) with
         | none => .error .chunkEnd
@@ -197,6 +198,7 @@ theorem read_chunks_step_eq_model (f : Bw64.Bytes) (ds : Option Bw64.Ds64) (fuel
   cases Bw64.readChunkHeader f ds pos with
   | eof => rfl
   | badId => rfl
+  | placeholder => rfl
   | hdr id sz =>
     simp only [Gen.read_chunks_step, Nat.and_one_is_mod]
     grind
